@@ -7,6 +7,9 @@ def main(tier):
     r = common.Run("C14", "model_checking", tier)
     tot, found, status = _passes.run_exploration(tier)
     n_fault, f2 = _passes.check_analysis_faults()
+    n_comp, f3 = _passes.check_compositions(tier)
+    f2 = dict(f2)
+    f2.update(f3)
     for (prop, key), f in sorted(found.items()):
         if prop != "c14":
             continue
@@ -19,8 +22,8 @@ def main(tier):
     r.sample({"analysis_fault_case": {"pass": "ShapeInference", "variant": "lazy_raises", "fault": "api_raises"}})
     r.coverage.update({
         "states": tot["states"], "transitions": tot["transitions"], "traces_validated_against_impl": tot["transitions"],
-        "transitions_that_changed_the_model": tot["modifying"], "evaluations": tot["transitions"] + n_fault, "distinct_nontrivial": tot["modifying"],
-        "rule": "same transition system as C05; per transition: identity rule, modified=False => byte-identical serialisation, link invariant, ordered graphs stay ordered, still serialisable, convergence of repeated application within |nodes|+|initializers|+8 rounds and no change afterwards; plus analysis passes under injected faults",
+        "transitions_that_changed_the_model": tot["modifying"], "evaluations": tot["transitions"] + n_fault + n_comp, "composition_cases": n_comp, "distinct_nontrivial": tot["modifying"],
+        "rule": "same transition system as C05; per transition: identity rule, modified=False => byte-identical serialisation, link invariant, ordered graphs stay ordered, still serialisable, convergence of repeated application within |nodes|+|initializers|+8 rounds and no change afterwards; plus analysis passes under injected faults; plus functionalize(p) for every pass and Sequential / PassManager / functionalize(Sequential) over pass pairs compared with member-by-member application on fresh copies",
         "exhaustive": True, "seed_status": status, "analysis_pass_fault_cases": n_fault,
         "bound": [{"seeds": w, "count": c, "pass_sequence_depth": d} for w, c, d in _passes.plan(tier)], "passes": len(_passes.PASSES),
     })
